@@ -168,7 +168,44 @@ theorem debug_enum_positions (attrs : List A) {p : Parsed} :
     | legacyBound => simp [parseOne] at hpa
     | unknown => simp [parseOne] at hpa
 
+/-- **Field attributes of Debug**: an unreadable attribute, a second attribute on the same field (repeated `skip`,
+`skip` with `ignore`, two formats, a format with `skip`), or a field format under a struct / variant format make
+the derive fail, for a struct and for every variant alike; `skip` ≡ `ignore`. -/
+theorem debug_field_attributes (cf : Bool) (fields : List (List FA)) (l : List FA) (hl : l ∈ fields) :
+    (FA.unreadable ∈ l → debugFieldsOk cf fields = false) ∧
+    (2 ≤ l.length → debugFieldsOk cf fields = false) ∧
+    (cf = true → FA.fmt ∈ l → debugFieldsOk cf fields = false) ∧
+    (∀ b, parseFA (.skip b) = some .skip) := by
+  have key : ∀ (bad : List FA → Prop), (∀ l, bad l → fieldOk cf l = false) → bad l → debugFieldsOk cf fields = false := by
+    intro bad hb hbl
+    unfold debugFieldsOk
+    apply Bool.eq_false_iff.mpr
+    intro h
+    rw [List.all_eq_true] at h
+    have := h l hl
+    rw [hb l hbl] at this; cases this
+  refine ⟨?_, ?_, ?_, fun _ => rfl⟩
+  · apply key (fun l => FA.unreadable ∈ l)
+    intro l hm
+    match l, hm with
+    | [a], hm => simp at hm; subst hm; rfl
+    | _ :: _ :: _, _ => rfl
+  · apply key (fun l => 2 ≤ l.length)
+    intro l hm
+    match l, hm with
+    | _ :: _ :: _, _ => rfl
+  · intro hc
+    apply key (fun l => FA.fmt ∈ l)
+    intro l hm
+    match l, hm with
+    | [a], hm => simp at hm; subst hm; simp [fieldOk, parseField, parseFA, hc]
+    | _ :: _ :: _, _ => rfl
+
 /-! Non-vacuity. -/
+example : debugFieldsOk true [[.skip false], [], [.skip true]] = true := by decide
+example : debugFieldsOk false [[.fmt], [.skip false]] = true := by decide
+example : debugFieldsOk true [[.fmt]] = false := by decide
+example : debugFieldsOk false [[.skip false, .skip true]] = false := by decide
 example : parseAll .display [.bounds .bound [1, 2], .fmt 0 [7], .renameAll (some .snake), .bounds .bounds [3]]
     = some { fmt := some (0, [7]), bounds := [1, 2, 3], renameAll := some .snake } := by decide
 example : parseAll .display [.fmt 0 [], .fmt 1 []] = none := by decide
